@@ -124,6 +124,17 @@ def hand_cases():
                     "call S(\n    t  = {\n        a: 1,\n        b: 2,\n        zz3: 3,\n        zz1: 1,\n        zz2: 2,\n        q: 0,\n    },\n"
                     "    m  = {\n        \"k3\": \"x\",\n        \"k1\": \"y\",\n        \"k2\": [],\n        \"k0\": {},\n    },\n"
                     "    ts = [\n        {\n            a: \"s\",\n            b: \"t\",\n        },\n        {\n            c: 1,\n            d: 2,\n            e: 3,\n        },\n    ],\n)\n"))
+    # a struct literal with more keys than the struct has members that also lacks members: every
+    # unexpected field is named, always the same ones
+    out.append(prog("errors_badkeys_missing",
+                    "struct T(\n    int x,\n    int y,\n    int z,\n)\n\nstage S(\n    in  T t,\n    out int y,\n    src py \"s\",\n)\n\n"
+                    "call S(\n    t = {\n        x: 1,\n        u6: 6,\n        u2: 2,\n        u5: 5,\n        u1: 1,\n        u4: 4,\n        u3: 3,\n    },\n)\n"))
+    # struct literals with a very long key next to a medium and a short one (the column of the
+    # values depends on the widest key below a limit)
+    out.append(prog("format_long_struct_keys",
+                    "struct W(\n    int ab,\n    int a_key_of_twenty_one__,\n    int a_key_that_is_exactly_forty_four_characters_,\n    int k_30_characters_long__________,\n    int k29_characters_long__________,\n)\n\n"
+                    "stage S(\n    in  W w,\n    out int y,\n    src py \"s\",\n)\n\ncall S(\n    w = {\n        a_key_that_is_exactly_forty_four_characters_: 1,\n        ab: 2,\n        k_30_characters_long__________: 3,\n"
+                    "        a_key_of_twenty_one__: 4,\n        k29_characters_long__________: 5,\n    },\n)\n"))
     out.append(prog("errors_mapkeys",
                     "stage A4(\n    in  int a,\n    in  int b,\n    in  int c,\n    out int y,\n    src py \"a\",\n)\n\npipeline TOP(\n    out map<int> ys,\n)\n{\n"
                     "    map call A4(\n        a = split {\"p\": 1, \"q\": 2, \"r\": 3, \"s\": 4},\n        b = split {\"t\": 1, \"u\": 2, \"v\": 3, \"w\": 4},\n"
